@@ -31,3 +31,33 @@ impl std::future::Future for Delay {
 pub mod futures_timer {
     pub use super::Delay;
 }
+
+/// Noise handshake and socket (module `crypto::noise` is crate-private).
+pub mod noise {
+    pub use crate::{
+        config::Role,
+        crypto::noise::{handshake, HandshakeTransport, NoiseSocket, MAX_FRAME_LEN},
+    };
+}
+
+/// Protocol negotiation (module `multistream_select` is crate-private).
+pub mod multistream_select {
+    pub use crate::multistream_select::*;
+}
+
+/// Wrap one end of a yamux stream into a framed [`Substream`](crate::substream::Substream),
+/// the way the TCP transport does.
+pub fn substream_over_yamux(
+    peer: crate::PeerId,
+    id: usize,
+    stream: crate::yamux::Stream,
+    codec: crate::codec::ProtocolCodec,
+) -> crate::substream::Substream {
+    use tokio_util::compat::FuturesAsyncReadCompatExt;
+    crate::substream::Substream::new_tcp(
+        peer,
+        crate::types::SubstreamId::from(id),
+        crate::transport::tcp::Substream::new(stream.compat(), crate::BandwidthSink::new(), None),
+        codec,
+    )
+}
